@@ -124,6 +124,34 @@ CLAIMED["C09"] = dict(
    note="interleavings are perturbed, not enumerated, on the real code; the verdict never depends on timing",
    technique="TLA+ design model (TLC exhaustive) + hook-driven cancellation / schedule perturbation on the real code + TLA+ trace validation",
    design_ref="DESIGN.md section 3 C09")
+CLAIMED["C12"] = dict(
+   text="TLC exhausts the arena / rewrite-table model (every expression of up to 2-3 constructor calls over two variables and the "
+        "constants -1, 0, 1, 2: the node means what the unrewritten expression means at every integer assignment, no duplicate ops, "
+        "repeated calls return the same node, no all-constant op reaches flattening) and enumerates the operand-class cases; the "
+        "harness builds one implementation test per case plus generator and random programs with special constants and shared "
+        "subtrees, through the constructors and as trees, and evaluates the unsimplified expression operation by operation; "
+        "Trace_C12 requires equal values (finite evaluations, sign of zero free), deduplication, export/import round trip, equal "
+        "hashes for equal trees, and deep chains handled on a 256 KiB stack.",
+   note="stack depth is observed (child process), not modelled",
+   technique="TLA+ design model (TLC exhaustive) + TLC-enumerated cases replayed into the real Context + TLA+ trace validation",
+   design_ref="DESIGN.md section 3 C12")
+CLAIMED["C13"] = dict(
+   text="TLC exhausts the import stack-machine model against denotational substitution (builder sequences over two registers with "
+        "sharing, four integer matrices, 42 remap_xyz forms; cache soundness) and emits every sequence of the bound, a deeper "
+        "reduced-alphabet family aimed at sharing, and simulated long sequences; the harness replays them through Tree / "
+        "Context::import; Trace_C13 rebuilds the tree from the recorded sequence and recomputes the value by substitution in Integers.",
+   note="integer matrices and points are exact; float affine chains (incl. near-identity ones) are judged against an f64 composition",
+   technique="TLA+ design model (TLC exhaustive) + TLC-generated builder sequences replayed + TLA+ trace validation with exact denotation",
+   design_ref="DESIGN.md section 3 C13")
+CLAIMED["C16"] = dict(
+   text="Shapes.tla decides membership of rational points in the documented solids exactly (primitives, named axes and planes, move, "
+        "scale incl. negative and non-uniform, quarter-turn rotations about centres, reflections, repetition, revolution, extrusion, "
+        "CSG); TLC checks algebraic laws of that definition on a lattice and enumerates ~10^4 shape terms; the harness builds each with "
+        "the real structs (named and generic forms, angles modulo a turn) and evaluates lattice points; Trace_C16 compares every "
+        "decidable point.",
+   note="integer parameters and quarter turns only; blend and loft interiors and general angles are outside the exact model",
+   technique="TLA+ exact geometric semantics (TLC) + TLC-enumerated shape terms replayed into the real library + TLA+ trace validation",
+   design_ref="DESIGN.md section 3 C16")
 NOT_YET = {}
 props = [json.loads(l) for l in open(os.path.join(ROOT, "properties.jsonl"))]
 m = {
